@@ -11,6 +11,7 @@ package rosort
 //@   binds subscriberCtx destination source
 //@   calls CollectWithContext CompleteWithContext ErrorWithContext NextWithContext Slice
 //@   params subscriberCtx destination
+//@   scope cmp destination i j source subscriberCtx values
 //@   maypanic
 //@   track call.CollectWithContext call.Slice call.SliceStable destination.* loop.*
 //@   ensures [source-error-is-forwarded|C18] res(call.CollectWithContext, 2) != nil ==> trace(call.CollectWithContext(subscriberCtx, source), destination.ErrorWithContext(res(call.CollectWithContext, 1), res(call.CollectWithContext, 2)))
@@ -26,6 +27,7 @@ package rosort
 //@   binds subscriberCtx destination source
 //@   calls CollectWithContext CompleteWithContext ErrorWithContext NextWithContext Slice
 //@   params subscriberCtx destination
+//@   scope cmp destination i j source subscriberCtx values
 //@   maypanic
 //@   track call.CollectWithContext call.Slice call.SliceStable destination.* loop.*
 //@   ensures [source-error-is-forwarded|C18] res(call.CollectWithContext, 2) != nil ==> trace(call.CollectWithContext(subscriberCtx, source), destination.ErrorWithContext(res(call.CollectWithContext, 1), res(call.CollectWithContext, 2)))
@@ -41,6 +43,7 @@ package rosort
 //@   binds subscriberCtx destination source
 //@   calls CollectWithContext CompleteWithContext ErrorWithContext NextWithContext SliceStable
 //@   params subscriberCtx destination
+//@   scope cmp destination i j source subscriberCtx values
 //@   maypanic
 //@   track call.CollectWithContext call.Slice call.SliceStable destination.* loop.*
 //@   ensures [source-error-is-forwarded|C18] res(call.CollectWithContext, 2) != nil ==> trace(call.CollectWithContext(subscriberCtx, source), destination.ErrorWithContext(res(call.CollectWithContext, 1), res(call.CollectWithContext, 2)))
